@@ -10,12 +10,12 @@ for pid in props:
     checks.append({"property_id":pid,"quick_cmd":f"/verif/bin/check {pid} --tier quick","thorough_cmd":f"/verif/bin/check {pid} --tier thorough",
       "evidence_file":f"/verif/evidence/{pid}.json","replay_cmd_template":f"/verif/bin/check {pid} --replay {{path}}","engine":"gosym",
       "level_claimed":{"category":"model_checking","text":c['text'],"design_ref":f"DESIGN.md section 4, {pid}"},
-      "level_note":c['note'],"technique":"bounded symbolic execution of go/ssa + SMT solver (z3), counterexamples replayed natively"})
+      "level_note":c['note'],"technique":"bounded symbolic execution of go/ssa + SMT solvers (z3; cvc5 as second opinion on queries z3 leaves unknown), counterexamples replayed natively"})
 na=[{"property_id":p,"reason":claims['not_applicable'].get(p,"check not built yet (work in progress)")} for p in props if p not in claims['checks']]
 m={"version":1,
  "setup_cmd":"cd /verif/engine && GOFLAGS=-mod=mod GOPROXY=off GOSUMDB=off GOTOOLCHAIN=local go build -o /verif/bin/gosym ./cmd/gosym",
  "hooks":{"guard":"verif","enable":"no source hooks: harness files and the vrt runtime are injected with go/packages and `go test -overlay` overlays; nothing under /repo is needed","baseline_off_cmd":"cd /repo && go test -mod=mod -json -vet=off -count=1 -timeout 25m ./...","source_commits":[],"add_only":True},
- "engines":[{"name":"gosym","path":"/verif/engine","serves_properties":[c['property_id'] for c in checks],"kind_free_text":"bounded symbolic execution of go/ssa with SMT (z3), DFS by re-execution over 14 workers, native replay of counterexamples through go test -overlay"}],
+ "engines":[{"name":"gosym","path":"/verif/engine","serves_properties":[c['property_id'] for c in checks],"kind_free_text":"bounded symbolic execution of go/ssa with SMT (z3, cvc5 as second opinion on unknown), DFS by re-execution over 14 workers, native replay of counterexamples through go test -overlay"}],
  "checks":checks,"not_applicable":na,
  "notes":"exit 0 = every obligation discharged within the registered bounds; exit 1 + VIOLATION line = solver counterexample reproduced natively; exit 2 = infrastructure failure (harness no longer compiles against the tree, unreachable witness). See DESIGN.md."}
 json.dump(m,open('/verif/MANIFEST.json','w'),indent=1)
